@@ -89,6 +89,13 @@ Ltac bench_eq_val :=
       | |- ?f ?a ?c = ?f ?b ?d => apply (f_equal2 f); bench_eq_val
       end ].
 
+Lemma Rle_iff_eq : forall a b c d : R, a = c -> b = d -> (a <= b <-> c <= d).
+Proof. intros a b c d E1 E2. subst. tauto. Qed.
+Lemma Rneq_iff_eq : forall a b c d : R, a = c -> b = d -> (a <> b <-> c <> d).
+Proof. intros a b c d E1 E2. subst. tauto. Qed.
+Lemma powR_def_iff_eq : forall a b c d : R, a = c -> b = d -> (powR_def a b <-> powR_def c d).
+Proof. intros a b c d E1 E2. subst. tauto. Qed.
+
 Ltac bench_eq_def :=
   first
     [ tauto
@@ -96,17 +103,11 @@ Ltac bench_eq_def :=
       | |- allf _ ?l <-> allf _ ?l => apply allf_ext; intros; bench_eq_def
       | |- allpairs _ ?l <-> allpairs _ ?l => apply allpairs_ext; intros; bench_eq_def
       | |- (?A /\ ?B) <-> (?C /\ ?D) => apply and_iff_both; bench_eq_def
-      | |- (?a <> ?b) <-> (?c <> ?d) =>
-          let E1 := fresh in let E2 := fresh in
-          assert (E1 : a = c) by bench_eq_val; assert (E2 : b = d) by bench_eq_val; rewrite E1, E2; tauto
-      | |- (?a <= ?b) <-> (?c <= ?d) =>
-          let E1 := fresh in let E2 := fresh in
-          assert (E1 : a = c) by bench_eq_val; assert (E2 : b = d) by bench_eq_val; rewrite E1, E2; tauto
-      | |- powR_def ?a ?b <-> powR_def ?c ?d =>
-          let E1 := fresh in let E2 := fresh in
-          assert (E1 : a = c) by bench_eq_val; assert (E2 : b = d) by bench_eq_val; rewrite E1, E2; tauto
+      | |- (_ <> _) <-> (_ <> _) => apply Rneq_iff_eq; bench_eq_val
+      | |- (_ <= _) <-> (_ <= _) => apply Rle_iff_eq; bench_eq_val
+      | |- powR_def _ _ <-> powR_def _ _ => apply powR_def_iff_eq; bench_eq_val
       end
-    | (split; intros; repeat split; intuition (auto; try lra)) ].
+    | solve [ split; intros; repeat split; intuition (auto; try lra) ] ].
 
 Ltac bench_sem :=
   split;
